@@ -113,7 +113,7 @@ Lemma decode_segment_gen scale start header d0 d1 xs ys zs ws rest :
                 (1 + (2 + 2 * (length xs + length ys + length zs + length ws))), rest)).
 Proof.
   intros Hs Hx Hy Hz Hw Bx By Bz Bw.
-  unfold decode_segment. cbv zeta.
+  unfold decode_segment. cbv zeta. rewrite ?shorter_length.
   rewrite Hx, Hy, Hz, Hw.
   destruct (scale =? 0) eqn:Es; [lia|].
   match goal with |- context [(?a <? ?b)%nat] => destruct (a <? b)%nat eqn:El end.
